@@ -1,6 +1,11 @@
 //! Kani harnesses for unit zone_file (see /verif/notes/AGENT-BRIEF.md for naming: full_*, bnd_*, cex_*).
 //! Property C24: the zone-file parser over ARBITRARY input octets (bounded length) terminates
 //! without panicking, stops after its first error, and yields only valid records.
+//!
+//! STATUS: NOT REGISTERED in vq/props.py.  `bnd_zone_file_parser_3` was tried once with
+//! `timeout 900` (CBMC still in symbolic execution of Reader::try_fill / memcmp when killed:
+//! String/Vec/io::Cursor plus the 16 KiB reader buffer are too heavy).  Kept for reference;
+//! totality of the tokenizer stays UNVERIFIED (see notes/agent_reports/validation_zonefile.md).
 #![allow(unused_imports, dead_code)]
 
 use std::io::Cursor;
